@@ -1,0 +1,28 @@
+//go:build verif && amd64 && go1.17 && !go1.27
+// +build verif,amd64,go1.17,!go1.27
+
+package verifx
+
+import (
+	"github.com/bytedance/sonic/internal/decoder/optdec"
+	"github.com/bytedance/sonic/internal/encoder/alg"
+	"github.com/bytedance/sonic/internal/utils"
+)
+
+// Number helpers of the Go layer (C19): the json.Number validator of the encoders, the Go fallbacks of the
+// number printers, and the Go-side number scanners of the alternative decoder.
+
+func IsValidNumber(s string) bool { return alg.IsValidNumber(s) }
+
+func AlgF64toa(buf []byte, v float64) []byte { return alg.F64toa(buf, v) }
+func AlgF32toa(buf []byte, v float32) []byte { return alg.F32toa(buf, v) }
+func AlgI64toa(buf []byte, v int64) []byte   { return alg.I64toa(buf, v) }
+func AlgU64toa(buf []byte, v uint64) []byte  { return alg.U64toa(buf, v) }
+
+func UtilsSkipNumber(src string, pos int) int { return utils.SkipNumber(src, pos) }
+
+func OptdecSkipNumberFast(json string, start int) (int, bool) { return optdec.SkipNumberFast(json, start) }
+func OptdecValidNumberFast(raw string) bool                  { return optdec.ValidNumberFast(raw) }
+func OptdecParseI64(raw string) (int64, error)               { return optdec.ParseI64(raw) }
+func OptdecParseU64(raw string) (uint64, error)              { return optdec.ParseU64(raw) }
+func OptdecParseF64(raw string) (float64, error)             { return optdec.ParseF64(raw) }
